@@ -200,7 +200,18 @@ def _pw_cases(draw):
     vals = [x / 2 for x in draw(st.lists(st.integers(-4, 4), min_size=n, max_size=n))]
     labs = draw(st.lists(st.integers(0, 1), min_size=n, max_size=n))
     thr = [x / 4 for x in draw(st.lists(st.integers(-9, 9), min_size=k, max_size=k))]
-    return dict(sshape=list(sshape), tshape=list(tshape), scores=vals, labels=labs, thr=thr,
+    sdt = draw(st.sampled_from([None, None, "float32", "float16"]))
+    if sdt and draw(st.booleans()):
+        tshape, k = (), 1  # one threshold, given as a plain number below
+    if sdt:
+        # single / half precision scores next to thresholds written as decimal literals: a score
+        # float32(0.3) is not 0.3, and a Python-number threshold must not be rounded onto it
+        vals = [float(np.dtype(sdt).type(x / 10)) for x in draw(st.lists(st.integers(-9, 9), min_size=n, max_size=n))]
+        thr = [x / 10 for x in draw(st.lists(st.integers(-9, 9), min_size=k, max_size=k))]
+        if n and k and draw(st.booleans()):
+            vals[draw(st.integers(0, n - 1))] = float(np.dtype(sdt).type(thr[0]))  # the score a rounded threshold would hit
+    return dict(sshape=list(sshape), tshape=list(tshape), scores=vals, labels=labs, thr=thr, score_dtype=sdt,
+                thr_scalar=draw(st.sampled_from(["array", "py", "py", "np"])),
                 cfg=draw(gen.CONFIG), layouts=[draw(st.sampled_from(LAYOUTS)) for _ in range(3)])
 
 
@@ -212,11 +223,14 @@ def check_pointwise_shape(case):
     ss, ts = tuple(case["sshape"]), tuple(case["tshape"])
     sc, ec = case["cfg"]
     lay = case.get("layouts", ["C", "C", "C"])
-    scores = as_layout(np.asarray(case["scores"], dtype=float).reshape(ss), lay[0])
+    scores = as_layout(np.asarray(case["scores"], dtype=case.get("score_dtype") or float).reshape(ss), lay[0])
     labels = as_layout(np.asarray(case["labels"], dtype=int).reshape(ss), lay[1])
     thr = as_layout(np.asarray(case["thr"], dtype=float).reshape(ts), lay[2])
     s0, l0, t0 = scores.copy(), labels.copy(), thr.copy()
-    pw = pointwise_cm(labels, scores, thr, score_class=sc, equal_class=ec)
+    thr_arg = thr
+    if ts == () and case.get("thr_scalar", "array") != "array":  # a single threshold as a plain number
+        thr_arg = float(case["thr"][0]) if case["thr_scalar"] == "py" else np.float64(case["thr"][0])
+    pw = pointwise_cm(labels, scores, thr_arg, score_class=sc, equal_class=ec)
     require(pw.shape == ss + ts + (2, 2), "vec:pointwise-shape",
             f"{pw.shape} for scores {ss} thresholds {ts}")
     pf = pw.reshape((len(case["scores"]), len(case["thr"]), 2, 2))
@@ -230,6 +244,8 @@ def check_pointwise_shape(case):
     require(np.array_equal(scores, s0) and np.array_equal(labels, l0) and np.array_equal(thr, t0),
             "vec:mutated-input", "pointwise_cm")
     labels_ = ["size0-axis"] if 0 in ss + ts else []
+    if case.get("score_dtype"):
+        labels_.append(f"scores:{case['score_dtype']}")
     if any(x != "C" for x in lay) and (len(ss) >= 2 or len(ts) >= 2):
         labels_.append("non-C-layout")
     return dict(nontrivial=len(ss) + len(ts) >= 2 or 0 in ss + ts, labels=labels_)
@@ -349,6 +365,7 @@ def _run_step(o, step, init):
         res = [sub.pos, sub.neg, sub.cm(arr(step["thr"])).matrix]
     else:
         raise ValueError(op)
+    _run_step.raw = res  # the objects as handed out (the history check keeps them)
     return [np.array(r, copy=True) for r in res], args
 
 
@@ -383,6 +400,7 @@ def check_history(case):
     o, arrays = _build(init, arrays)
     snap = _snapshot(o)
     memo = {}
+    handed = []
     executed = 0
     repeated_after_other = False
     last_key = None
@@ -393,6 +411,13 @@ def check_history(case):
         res, args = _run_step(o, step, init)
         executed += 1
         ctx = f"step {idx} {step}"
+        # results handed out by earlier steps are the caller's: later queries must not change them
+        for j, (raw_j, copy_j, step_j) in enumerate(handed):
+            require(_same(raw_j, copy_j), "hist:earlier-result-changed",
+                    lambda: f"{ctx}: a result of {step_j} was {np.asarray(copy_j).tolist()} when it was returned and "
+                            f"is {np.asarray(raw_j).tolist()} now")
+        handed.extend((r, c, step) for r, c in zip(_run_step.raw, res) if isinstance(r, np.ndarray))
+        handed[:] = handed[-12:]
         require(_unchanged(o, snap), "hist:object-mutated", ctx)
         for k, v in arrays.items():
             if v is not None:
@@ -576,7 +601,7 @@ PROP = Prop(
                quick_shards=3, min_nontrivial=50, doc="shapes, elementwise = scalar, scalars, aliases"),
         Clause("long_vectors", check_long, kind="enum", cases=_long_cases, quick_shards=8, shards=16,
                min_nontrivial=10, doc="1e3-2e4 targets / thresholds per call vs the scalar calls"),
-        Clause("pointwise_shape", check_pointwise_shape, strategy=_pw_cases(), quick=300,
+        Clause("pointwise_shape", check_pointwise_shape, strategy=_pw_cases(), quick=400, quick_shards=2,
                thorough=6000, shards=4, min_nontrivial=50, doc="pointwise_cm shape incl. size-0 axes"),
         Clause("history", check_history, kind="machine", machine=make_machine, quick=80,
                thorough=1600, quick_shards=4, steps=30, min_nontrivial=30,
